@@ -574,11 +574,11 @@ class Unit:
         ctx.assume(z3.ForAll([j], z3.Implies(z3.And(j >= 0, j < K),
                                              z3.And(src(j) >= 0, src(j) < R,
                                                     *[U(j, c) == to_z3(t.at(src(j), c)) for c in range(C)])),
-                             patterns=[U(j, 0)]))
+                             patterns=[U(j, c) for c in range(C)] + [src(j)]))
         ctx.assume(z3.ForAll([r], z3.Implies(z3.And(r >= 0, r < R),
                                              z3.And(rk(r) >= 0, rk(r) < K,
                                                     *[U(rk(r), c) == to_z3(t.at(r, c)) for c in range(C)])),
-                             patterns=_pats([rk(r), to_z3(t.at(r, 0))], r)))
+                             patterns=_pats([rk(r)] + [to_z3(t.at(r, c)) for c in range(C)], r)))
         ctx.assume(z3.ForAll([i, j], z3.Implies(z3.And(i >= 0, i < j, j < K),
                                                 z3.Or(*[U(i, c) != U(j, c) for c in range(C)])),
                              patterns=[z3.MultiPattern(U(i, 0), U(j, 0))]))
@@ -633,8 +633,9 @@ class Unit:
         else:
             below = lambda q: conv(bins.at(q)) <= v  # noqa: E731
         ctx.assume(z3.ForAll([v], z3.And(D(v) >= 0, D(v) <= to_z3(m)), patterns=[D(v)]))
-        ctx.assume(z3.ForAll([v, jj], z3.Implies(z3.And(jj >= 0, jj < to_z3(m)), (jj < D(v)) == below(jj)),
-                             patterns=[z3.MultiPattern(D(v), bins.at(jj))] if is_sym(bins.at(jj)) else None))
+        # with strictly increasing bins "number of bins below v" is characterised by its two neighbours
+        ctx.assume(z3.ForAll([v], z3.And(z3.Implies(D(v) > 0, below(D(v) - 1)),
+                                         z3.Implies(D(v) < to_z3(m), z3.Not(below(D(v))))), patterns=[D(v)]))
         ctx.use('numpy.digitize (increasing bins): result = number of bins below x (<= x, or < x if right=True)')
         if isinstance(x, (STensor, np.ndarray)):
             return as_tensor(x).map(lambda e: D(conv(e)), dtype='int')
@@ -760,12 +761,30 @@ class Unit:
                              'gen_s': time.time() - t0, 'paths': 1, 'info': {}, 'trusted': list(ctx.axiom_tags)})
 
 
+def _pure(e, var):
+    """(is a legal trigger sub-term, contains var)."""
+    if z3.eq(e, var):
+        return True, True
+    if z3.is_int_value(e) or z3.is_rational_value(e):
+        return True, False
+    if z3.is_app(e) and e.decl().kind() == z3.Z3_OP_UNINTERPRETED:
+        has = False
+        for c in e.children():
+            ok, h = _pure(c, var)
+            if not ok:
+                return False, False
+            has = has or h
+        return True, has
+    return False, False
+
+
 def _pats(cands, var):
-    """Keep the candidate triggers that are applications containing the bound variable."""
+    """Keep the candidate triggers built only from uninterpreted symbols / numerals that contain the bound variable."""
     out = []
     for c in cands:
-        if z3.is_app(c) and c.num_args() > 0 and not z3.is_int_value(c) and c.decl().kind() == z3.Z3_OP_UNINTERPRETED:
-            if any(z3.eq(a, var) for a in c.children()):
+        if z3.is_app(c) and c.num_args() > 0 and c.decl().kind() == z3.Z3_OP_UNINTERPRETED:
+            ok, has = _pure(c, var)
+            if ok and has and not any(z3.eq(c, o) for o in out):
                 out.append(c)
     return out or None
 
